@@ -51,6 +51,11 @@ def strategy(draw, tier):
             opts = [draw(gc.st_options(band, sparse=True)) for _ in range(k)]
     else:
         opts = None
+    if mode != 'none' and axis != [0, 1] and draw(st.integers(0, 3)) == 0:
+        # "ignore the recording edges": a boundary longer than one epoch, so that the first / last epochs of a slice hold no cycle
+        big = n + draw(st.integers(0, n // 2))
+        for o in ([opts] if mode == 'dict' else opts):
+            o['find_extrema_kwargs'] = dict(o.get('find_extrema_kwargs') or {}, boundary=big)
     return {'fs': band['fs'], 'f_range': band['f_range'], 'sigs': sigs, 'axis': axis, 'mode': mode, 'opts': opts,
             'n_jobs': draw(st.sampled_from([1, 2, 2, 5, -1])), 'return_samples': draw(st.sampled_from([True, True, False])),
             'via': draw(st.sampled_from(['func', 'group'])), 'refit': draw(st.booleans()),
@@ -147,14 +152,24 @@ def run_group(case, X, fs, fr, axis, arg, rs, via, opts, n0, n1):
                          find_extrema_kwargs=o.get('find_extrema_kwargs'), return_samples=rs)
             if case['refit']:
                 other = X[::-1, ::-1][:, :1] if n1 > 1 else X[::-1]
-                with_timeout(lambda: guarded(bg.fit, np.ascontiguousarray(other), fs, fr, axis=axis, n_jobs=case['n_jobs']), 120)
+                try:
+                    with_timeout(lambda: bg.fit(np.ascontiguousarray(other), fs, fr, axis=axis, n_jobs=case['n_jobs']), 120)
+                except Discard:
+                    raise
+                except Exception:  # noqa - the other data need not be analysable with these options; only the fit below is judged
+                    pass
             with_timeout(lambda: guarded(bg.fit, X, fs, fr, axis=axis, n_jobs=case['n_jobs'], progress=case['progress']), 120)
             if case.get('other_object'):
                 # a second, independent group object fitted on other data must not disturb this one
                 bg2 = guarded(BycycleGroup, center_extrema=o.get('center_extrema', 'peak'), burst_method=o.get('burst_method', 'cycles'),
                               burst_kwargs=o.get('burst_kwargs'), thresholds=o.get('threshold_kwargs'),
                               find_extrema_kwargs=o.get('find_extrema_kwargs'), return_samples=rs)
-                with_timeout(lambda: guarded(bg2.fit, np.ascontiguousarray(X[::-1, ::-1]), fs, fr, axis=axis, n_jobs=case['n_jobs']), 120)
+                try:
+                    with_timeout(lambda: bg2.fit(np.ascontiguousarray(X[::-1, ::-1]), fs, fr, axis=axis, n_jobs=case['n_jobs']), 120)
+                except Discard:
+                    raise
+                except Exception:  # noqa - only the first object is judged
+                    pass
             out, models = bg.df_features, bg.models
     return out, models
 
